@@ -30,6 +30,7 @@ type pubWalker struct {
 	// value; exitIf is the top-level alternative-exit `if` this walk leaves the function through.
 	assume map[string]bool
 	exitIf *ast.IfStmt
+	guards []ast.Expr // conditions of step-contributing optional blocks taken on the main path
 }
 
 // pubSplice: plain in-package functions that are extraction targets themselves.
@@ -227,10 +228,23 @@ func (w *pubWalker) ifStmt(s *ast.IfStmt) error {
 			}
 			return nil // alternative exit not taken on this path
 		}
-		if v, known := w.assumed(s.Cond); known && !v {
-			return nil // the condition is false on this path (it is the negation of an exit condition)
+		if v, known := w.assumed(s.Cond); known {
+			if !v {
+				return nil // the condition is false on this path
+			}
+			return w.stmts(s.Body.List)
 		}
-		return w.stmts(s.Body.List)
+		// condition not determined by the path: the block is taken here, and if it contributes protocol
+		// steps it is recorded as a guard so that the path on which it is skipped is extracted as well
+		// (a guarded fsyncDir is not an fsyncDir on every path)
+		before := len(w.steps)
+		if err := w.stmts(s.Body.List); err != nil {
+			return err
+		}
+		if len(w.steps) > before && w.depth == 0 && w.exitIf == nil {
+			w.guards = append(w.guards, s.Cond)
+		}
+		return nil
 	}
 	if v, known := w.assumed(s.Cond); known {
 		if v {
@@ -621,6 +635,8 @@ func pubExtract(p *pkg, repo, recvType, fn, name string) ([]pubVariant, error) {
 			exits = append(exits, is)
 		}
 	}
+	var mainGuards []ast.Expr
+	var skip ast.Expr // guard condition assumed false on this walk
 	walk := func(exit int) ([]string, error) {
 		w := &pubWalker{p: p, repo: repo, recvType: recvType, handles: map[string]string{}, alias: map[string]string{}, pathRole: map[string]string{}, assume: map[string]bool{}}
 		if fd.Recv != nil && len(fd.Recv.List) == 1 && len(fd.Recv.List[0].Names) == 1 {
@@ -636,6 +652,15 @@ func pubExtract(p *pkg, repo, recvType, fn, name string) ([]pubVariant, error) {
 		if exit >= 0 {
 			w.exitIf = exits[exit]
 		}
+		if skip != nil {
+			base, neg := condKey(skip)
+			w.assume[base] = neg // cond false
+		}
+		defer func() {
+			if exit < 0 && skip == nil {
+				mainGuards = w.guards
+			}
+		}()
 		if err := w.body(fd.Body.List, true); err != nil && err != errPubExit {
 			return nil, err
 		} else if exit >= 0 && err != errPubExit {
@@ -652,6 +677,15 @@ func pubExtract(p *pkg, repo, recvType, fn, name string) ([]pubVariant, error) {
 		return nil, fmt.Errorf("%s: extracted sequence is not a publish protocol (needs create, rename, final ok): [%s]", name, strings.Join(main, ", "))
 	}
 	out := []pubVariant{{name, main}}
+	for _, g := range mainGuards {
+		skip = g
+		steps, err := walk(-1)
+		skip = nil
+		if err != nil {
+			return nil, fmt.Errorf("%s[!(%s)]: %w", name, types.ExprString(g), err)
+		}
+		out = append(out, pubVariant{name + "[!(" + types.ExprString(g) + ")]", steps})
+	}
 	for i, is := range exits {
 		steps, err := walk(i)
 		if err != nil {
@@ -727,7 +761,7 @@ func init() {
 					mains = append(mains, e)
 				} else {
 					e.id += fmt.Sprintf("_exit%d", i)
-					e.doc += " leaving through `if " + strings.TrimSuffix(strings.SplitN(v.name, "[", 2)[1], "]") + " { …; return }`"
+					e.doc += " on the path `" + strings.TrimSuffix(strings.SplitN(v.name, "[", 2)[1], "]") + "`"
 					variants = append(variants, e)
 				}
 			}
